@@ -24,7 +24,8 @@ package main
 //	     SMALL limits (8KB plain, 12KB encrypted, 64KB encrypted+compressed; burst below / above the 16..32 KiB
 //	     pieces Join copies) enforced by frpc or frps, payloads of several bursts; the transfers of one op run
 //	     simultaneously on distinct proxies.
-//	     up: the user writes and closes, the backend must get everything and then EOF; down: the BACKEND writes the
+//	     up: the user writes, closes once the backend has everything (upc: the moment it has written everything), the
+//	     backend must get everything and then EOF; down: the BACKEND writes the
 //	     payload in one Write and closes while the user only reads, the user must get everything and then EOF
 //	   => r=<bytes received>:<eof 0|1>:<bytes equal 0|1>:<ms.bytes/ms.bytes/…>|…
 import (
@@ -641,10 +642,21 @@ func te2eSmallOne(p *te2ePair, el string, seed int64) (string, bool) {
 	var got []byte
 	var want []byte
 	eof := false
-	if dir == "up" {
+	if dir == "up" || dir == "upc" {
 		want = stkPayload(n, "rand", seed, true)
 		werr := make(chan error, 1)
 		go func() { werr <- stkWriteChunked(c, want, 32*1024, 1) }()
+		left := false
+		if dir == "upc" {
+			// the user leaves the moment it has written everything: most of the stream is still inside the tunnel, and
+			// its end follows the last bytes at once
+			select {
+			case <-werr:
+			case <-time.After(budget):
+			}
+			c.Close()
+			left = true
+		}
 		dl := time.After(budget)
 	wait:
 		for {
@@ -660,11 +672,13 @@ func te2eSmallOne(p *te2ePair, el string, seed int64) (string, bool) {
 			}
 		}
 		// the user has finished writing and leaves: the backend must reach end-of-stream
-		select {
-		case <-werr:
-		case <-time.After(time.Second):
+		if !left {
+			select {
+			case <-werr:
+			case <-time.After(time.Second):
+			}
+			c.Close()
 		}
-		c.Close()
 		eof = stkWaitCh(bc.eof, 2*time.Second)
 		px.backend.mu.Lock()
 		got = append([]byte(nil), bc.recv.Bytes()...)
@@ -910,6 +924,15 @@ func te2eGen(rng *rand.Rand, n int, emit func(string)) {
 	// small limits, both enforcing sides, both directions: the two ops together use every (side, limit, direction)
 	emit(te2eGenSmall(rng, "111", 0))
 	emit(te2eGenSmall(rng, "001", 1))
+	// the same over the transports whose streams END differently (a quic stream hands its last bytes over TOGETHER with
+	// end-of-stream, yamux / websocket on a read of their own): one-way streams that end — the writer closes — of 1 byte up
+	// to a little more than a burst (the whole stream, or its tail, arrives with the end), every (enforcing side, limit)
+	// in both directions; then the several-burst transfers over quic
+	emit(te2eGenSmallTails(rng, "001q", 0))
+	emit(te2eGenSmallTails(rng, "001q", 1))
+	emit(te2eGenSmallTails(rng, "101w", rng.Intn(2)))
+	emit(te2eGenSmallTails(rng, "111", rng.Intn(2)))
+	emit(te2eGenSmall(rng, "001q", rng.Intn(2)))
 	// a slow, pausing reader behind every kind of control transport; the long pause once, on the datagram-based transport,
 	// at the moment the writing side is done (everything still outstanding sits in the buffers along the tunnel and the
 	// writing side has closed long before the reader comes back)
@@ -954,6 +977,10 @@ func te2eGen(rng *rand.Rand, n int, emit func(string)) {
 			emit(te2eGenSmall(rng, cfg, rng.Intn(2)))
 			continue
 		}
+		if rng.Intn(40) == 0 {
+			emit(te2eGenSmallTails(rng, pick(rng, []string{"001q", "001q", "101w", cfg}), rng.Intn(2)))
+			continue
+		}
 		if rng.Intn(6) == 0 {
 			k := 2 + rng.Intn(5)
 			var px []string
@@ -991,9 +1018,27 @@ func te2eGenSmall(rng *rand.Rand, cfg string, phase int) string {
 	i := phase
 	for _, side := range []string{"srv", "cli"} {
 		for _, sl := range te2eSmallLimits {
-			dir := []string{"up", "down"}[i%2]
+			dir := []string{pick(rng, []string{"up", "upc"}), "down"}[i%2]
 			i++
 			n := sl.kb*1024*2 + rng.Intn(sl.kb*1024*3/2)
+			q = append(q, fmt.Sprintf("%s.%s.%d.%d%d.%d", side, dir, sl.kb, stkBit(sl.enc), stkBit(sl.comp), n))
+		}
+		i++
+	}
+	return fmt.Sprintf("sbw cfg=%s q=%s seed=%d", cfg, strings.Join(q, ","), rng.Intn(100000))
+}
+
+// streams that END through the small-limit proxies: 1 byte … a little more than one burst (at most ~0.2 s of limiter time
+// beyond what an earlier op left in the bucket), one per proxy, simultaneously; directions as in te2eGenSmall
+func te2eGenSmallTails(rng *rand.Rand, cfg string, phase int) string {
+	var q []string
+	i := phase
+	for _, side := range []string{"srv", "cli"} {
+		for _, sl := range te2eSmallLimits {
+			dir := []string{"upc", "down"}[i%2]
+			i++
+			b := sl.kb * 1024
+			n := pick(rng, []int{1, 2, 700, 4096, b / 2, b - 1, b, b + 1 + rng.Intn(b/5), 1 + rng.Intn(b)})
 			q = append(q, fmt.Sprintf("%s.%s.%d.%d%d.%d", side, dir, sl.kb, stkBit(sl.enc), stkBit(sl.comp), n))
 		}
 		i++
